@@ -107,6 +107,33 @@ Definition is_param_form (n : node) : bool :=
     || (is_kind "A_Expr" x && String.eqb (join_list (kid "Name" x) ".") "@") in
   base n || (is_kind "TypeCast" n && base (kid "Arg" n)).
 
+(** the row one query level returns: one entry per non-star target (named by its
+    AS alias, else by the column it references), stars expanded over the level's
+    scope in from-list order *)
+Definition row_step (sc : scope) (stack : list scope) (acc : pgres (list sccol)) (res : node) : pgres (list sccol) :=
+  pdo row <- acc;
+  let v := kid "Val" res in
+  if is_kind "ColumnRef" v then
+    if is_star v then
+      match string_items (kid "Fields" v) with
+      | [] => POk (row ++ flat_map si_cols sc)
+      | q :: _ =>
+          match filter (fun it => String.eqb (si_name it) q) sc with
+          | it :: _ => POk (row ++ si_cols it)
+          | [] => PErr (EUndefinedTable q)
+          end
+      end
+    else
+      pdo x <- resolve_ref stack v;
+      POk (row ++ [mkSC (match str_opt "Name" res with Some a => a | None => sc_name x end) (sc_src x)])
+  else
+    (* an un-aliased function call is named after the function; other expressions get
+       a name nobody can refer to ("?column?"), here "" *)
+    let dflt := if is_kind "FuncCall" v then str_of "Name" (kid "Func" v) else "" in
+    POk (row ++ [mkSC (match str_opt "Name" res with Some a => a | None => dflt end) None]).
+Definition row_of (sc : scope) (stack : list scope) (targets : list node) : pgres (list sccol) :=
+  fold_left (row_step sc stack) targets (POk []).
+
 Section WithCatalog.
   Variable c : catalog.
   (** [strict]: every column reference of a level must resolve (PostgreSQL);
@@ -265,24 +292,7 @@ Section WithCatalog.
                                                             ++ (if String.eqb k "UpdateStmt" then map (kid "Val") (kid_items "TargetList" stmt) else []))))
                                  (POk tt);
               (* the row *)
-              fold_left (fun acc res =>
-                           pdo row <- acc;
-                           let v := kid "Val" res in
-                           if is_kind "ColumnRef" v then
-                             if is_star v then
-                               match string_items (kid "Fields" v) with
-                               | [] => POk (row ++ flat_map si_cols sc)
-                               | q :: _ =>
-                                   match filter (fun it => String.eqb (si_name it) q) sc with
-                                   | it :: _ => POk (row ++ si_cols it)
-                                   | [] => PErr (EUndefinedTable q)
-                                   end
-                               end
-                             else
-                               pdo x <- resolve_ref stack v;
-                               POk (row ++ [mkSC (match str_opt "Name" res with Some a => a | None => sc_name x end) (sc_src x)])
-                           else POk (row ++ [mkSC (match str_opt "Name" res with Some a => a | None => "" end) None]))
-                        targets (POk [])
+              row_of sc stack targets
           end
     end.
 End WithCatalog.
